@@ -180,7 +180,7 @@ def check_case(sink, seed, idx):  # noqa: C901
             calls.append(args)
             return U.Leaf(('m', len(calls)))
 
-        variant = ['tree_broadcast_map', 'tree_broadcast_map_with_path', 'tree_broadcast_map_with_accessor'][idx % 3]
+        variant = ['tree_broadcast_map', 'tree_broadcast_map_with_path', 'tree_broadcast_map_with_accessor'][(idx // 3) % 3]
         km, res = outcome(lambda: getattr(optree, variant)(f, *trees, **kw))
         sink.check((km == 'ok') == (want_all is not None) and km in ('ok', 'ValueError'), f'map/verdict/n={n}', f'{variant} succeeds exactly when all trees have a common suffix', ident, lambda: (km, repr(res)[:300], want_all is not None))
         if km == 'ok' and want_all is not None:
